@@ -186,7 +186,46 @@ func VerifC10Codec() {
 	}
 }
 
+// VerifC10CodecSinglePercent: the string encoder under percent-encode-single-percent-sign: a '%' that
+// does not start an escape becomes %25, existing escapes and every other code point are treated as usual.
+func VerifC10CodecSinglePercent() {
+	which := vnd.Pick(6)
+	set := namedSet(which)
+	s := vnd.Str(vnd.Len(vnd.Param("C10.KSingle", 3, 4)))
+	p := NewParser(WithPercentEncodeSinglePercentSign()).(*parser)
+	enc := p.PercentEncodeString(s, set)
+	vnd.Observe("enc", enc)
+	rs := []rune(s)
+	want := ""
+	for i, r := range rs {
+		if r == '%' {
+			isEscape := i+2 < len(rs) && isHexRune(rs[i+1]) && isHexRune(rs[i+2])
+			if isEscape {
+				want += "%"
+			} else {
+				want += "%25"
+			}
+			continue
+		}
+		want += specEncodeRune(r, specSet(which, r))
+	}
+	if enc != want {
+		vnd.Fail("PercentEncodeString under percent-encode-single-percent-sign: existing escapes must stay, stray '%' become %25")
+	}
+	if p.PercentEncodeString(enc, set) != enc {
+		vnd.Fail("PercentEncodeString under percent-encode-single-percent-sign is not idempotent")
+	}
+	if p.DecodePercentEncoded(enc) != p.DecodePercentEncoded(string(rs)) {
+		vnd.Fail("decode(encode(s)) != decode(s) under percent-encode-single-percent-sign")
+	}
+}
+
+func isHexRune(r rune) bool {
+	return (r >= '0' && r <= '9') || (r >= 'a' && r <= 'f') || (r >= 'A' && r <= 'F')
+}
+
 func init() {
+	verifHarnesses["VerifC10CodecSinglePercent"] = VerifC10CodecSinglePercent
 	verifHarnesses["VerifC10SetTables"] = VerifC10SetTables
 	verifHarnesses["VerifC10Derive"] = VerifC10Derive
 	verifHarnesses["VerifC10EncodeRune"] = VerifC10EncodeRune
